@@ -27,6 +27,72 @@ def atStartAfter (atStart : Bool) (s : Bytes) : Bool :=
   | none => atStart
   | some b => b == NL
 
+/-! ### histories with short writes, the caller going on writing
+
+A history is a list of Write calls on one writer, each with what the underlying writer does with the
+bytes it is handed in that call: `none` = takes everything, `some k` = takes the first `k` bytes and
+reports an error (`k` beyond the end: takes everything and still reports the error).  The caller may
+go on writing after a failed call — with the unwritten remainder or with anything else.  What the
+property asks then: the bytes accepted so far are rendered as one text; so the line state after a
+short write is the state at the cut, not the state at the end of the argument. -/
+
+/-- Line state after the underlying writer took the first `k` bytes of the rendering of `s`
+(`some true` = the next caller byte starts a line and still needs its prefix, `some false` = it
+does not: the line is open, or its prefix is already out).  `none`: the cut fell inside a prefix —
+part of a prefix is out, and no continuation is specified. -/
+def cutState (pre : Bytes) (atStart : Bool) (s : Bytes) (k : Nat) : Option Bool :=
+  let t := tagged pre atStart s
+  let k := min k t.length
+  match k with
+  | 0 => some atStart                       -- nothing got through: the state is what it was
+  | j + 1 =>
+    match t[j]? with
+    | some (b, true) => some (b == NL)      -- the last byte taken is one of the caller's
+    | some (_, false) =>                    -- the last byte taken is a prefix byte:
+      match t[j + 1]? with
+      | some (_, false) => none             --   not the last one of its prefix
+      | _ => some false                     --   the prefix is complete
+    | none => some atStart
+
+/-- What a history must give: the bytes the underlying writer ends up with, and per call the count
+returned, whether an error is returned, and the line state afterwards (`none`: a cut inside a
+prefix; the history is not followed further).  A call with an empty argument does not reach the
+underlying writer. -/
+def history (pre : Bytes) : (atStart : Bool) → List (Bytes × Option Nat) →
+    Bytes × List (Nat × Bool × Option Bool)
+  | _, [] => ([], [])
+  | a, (c, none) :: rest =>
+    let a' := atStartAfter a c
+    let (o, r) := history pre a' rest
+    (render pre a c ++ o, (c.length, false, some a') :: r)
+  | a, (c, some k) :: rest =>
+    if c.isEmpty then
+      let (o, r) := history pre a rest
+      (o, (0, false, some a) :: r)
+    else
+      let took := (render pre a c).take k
+      let n := callerBytesIn pre a c k
+      match cutState pre a c k with
+      | none => (took, [(n, true, none)])
+      | some a' =>
+        let (o, r) := history pre a' rest
+        (took ++ o, (n, true, some a') :: r)
+
+/-- The histories on which the line state at every cut happens to be the line state at the end of the
+cut call's argument (and no cut falls inside a prefix): the inputs on which keeping the state of
+the whole argument after a short write — what the Go code does — is right. -/
+def cutsAtEndState (pre : Bytes) : (atStart : Bool) → List (Bytes × Option Nat) → Prop
+  | _, [] => True
+  | a, (c, none) :: rest => cutsAtEndState pre (atStartAfter a c) rest
+  | a, (c, some k) :: rest =>
+    if c.isEmpty then cutsAtEndState pre a rest
+    else cutState pre a c k = some (atStartAfter a c) ∧ cutsAtEndState pre (atStartAfter a c) rest
+
+/-- What a history shows to the caller and the underlying writer (the line states dropped; counts as
+Go `int`s). -/
+def observed (h : Bytes × List (Nat × Bool × Option Bool)) : Bytes × List (Int × Bool) :=
+  (h.1, h.2.map fun r => ((r.1 : Int), r.2.1))
+
 /-- Two stacked indenting writers (outer over inner over the sink), Write calls addressed to either
 (`true` = outer): an outer-addressed chunk is rendered with the outer prefix according to the outer
 line state, and whatever reaches the inner writer — that rendering, or an inner-addressed chunk as
